@@ -75,3 +75,10 @@ def fill(check, na):
           "texts are idempotent after one round; candidate lines and the signalling helper round-trip exactly. Sampled.",
           "Connection addresses are IP literals except a dedicated host-name mutation; a parser rejection of a mutated text is not judged.",
           "DESIGN.md 3/C09")
+    check("C14", "automaton monitor: a 4-state JSEP model per peer gives the admissible outcome of every signalling call on real RTCPeerConnection pairs; state, descriptions and signalingstatechange events are compared after every call; all sequences up to a length bound are enumerated",
+          "Held on the call sequences executed: every call's outcome (success / InvalidStateError / ValueError) and the resulting "
+          "signalingState agree with the automaton; rejected calls leave state and both descriptions unchanged and fire no event. "
+          "Exhaustive for all sequences up to length 3 (quick) / 4 (thorough) over 20 symbols on one media shape, random longer "
+          "sequences over four shapes.",
+          "Real aioice gathering (real time), no connectivity awaited; createOffer in have-remote-offer accepted either way.",
+          "DESIGN.md 3/C14")
